@@ -180,14 +180,9 @@ func (f *FuncVC) returnInstr(st *State, x *ssa.Return) {
 		pe := f.entryEval(st)
 		f.oblige(st, "post", "returns normally although panics_if "+c.Text, not(pe.evalBool(c.Expr)))
 	}
-	for _, c := range f.con.Ensures {
-		f.sc.add("; ensures " + c.Text)
-		for _, cj := range ev.evalConj(c.Expr) {
-			f.oblige(st, "post", cj.Label, cj.Term)
-		}
-	}
 	if len(f.con.Asserts) > 0 && x.Pos().IsValid() {
-		// return_assert: evaluated at the return statement, locals and results visible
+		// return_assert: evaluated at the return statement, locals and results visible;
+		// checked before the postconditions so that it can serve them as a lemma
 		lev := f.baseEval(st)
 		lev.locals = true
 		lev.pos = x.Pos()
@@ -204,6 +199,12 @@ func (f *FuncVC) returnInstr(st *State, x *ssa.Return) {
 			for _, cj := range lev.evalConj(c.Expr) {
 				f.oblige(st, "assert", "at return: "+cj.Label, cj.Term)
 			}
+		}
+	}
+	for _, c := range f.con.Ensures {
+		f.sc.add("; ensures " + c.Text)
+		for _, cj := range ev.evalConj(c.Expr) {
+			f.oblige(st, "post", cj.Label, cj.Term)
 		}
 	}
 	// cover: this return is reachable
